@@ -48,6 +48,7 @@ CONSTANTS Tiny,       \* TRUE: reduced alphabet, free exploration (every path x 
           Walk,       \* TRUE: guided walk per shape (generation); FALSE: free exploration
           MaxSteps,   \* depth of the free exploration
           EmitOut,    \* write every step to IOEnv.OUT
+          Seed, Stride,   \* subsample of the shapes: those with (index * 7919 + Seed) % Stride = 0
           Bound       \* Level I byte loop: copies bytes 0 .. size-1+Bound  (0 = chibicc; -1 / 1 must be rejected)
 
 L == INSTANCE Layout WITH MaxLen <- 2, Small <- FALSE, Pinned <- FALSE, Emit <- FALSE,
@@ -242,13 +243,15 @@ VARIABLES T,      \* the aggregate type of "obj" and "src"
           last,   \* what the last step was and what the program must print for it
           n,      \* steps taken
           ps,     \* Paths(T), evaluated once
-          vm      \* VMask(T), evaluated once
-vars == <<T, mem, prev, last, n, ps, vm>>
+          vm,     \* VMask(T), evaluated once
+          sid     \* index of the shape (key of the emitted steps)
+vars == <<T, mem, prev, last, n, ps, vm, sid>>
 
 InitMem(t) == [pre |-> Fill("pre", GuardSize), obj |-> Fill("obj", t.sz), post |-> Fill("post", GuardSize),
                src |-> Fill("src", t.sz)]
 NoStep == [act |-> "init", pi |-> 0, v |-> "", op |-> "", res |-> <<>>, pos |-> 0, w |-> 0, unspec |-> FALSE]
-Init == /\ T \in Shapes
+ShapeSeq == SetToSeq(Shapes)
+Init == /\ \E i \in DOMAIN ShapeSeq : (i * 7919 + Seed) % Stride = 0 /\ sid = i /\ T = ShapeSeq[i]
         /\ mem = InitMem(T) /\ prev = mem /\ last = NoStep /\ n = 0 /\ ps = Paths(T) /\ vm = VMask(T)
 
 LoadLv(m, p) == IF IsBits(p) THEN GetBits(m.obj, p.pos, Width(p), p.ty.sg)
@@ -256,10 +259,13 @@ LoadLv(m, p) == IF IsBits(p) THEN GetBits(m.obj, p.pos, Width(p), p.ty.sg)
 Mask(bytes, mask) == MkSeq(Len(bytes), LAMBDA i : IF mask[i] THEN bytes[i] ELSE -1)
 PutBytes(m, off, bytes) == MkSeq(Len(m), LAMBDA j : IF j - 1 >= off /\ j - 1 < off + Len(bytes) THEN bytes[j - off] ELSE m[j])
 
-Case(step) == [shape |-> T, step |-> n + 1, a |-> step, mem |-> mem',
-               paths |-> [i \in DOMAIN ps |-> [hops |-> ps[i].hops, lv |-> Lv(ps[i]), k |-> ps[i].ty.k, id |-> ps[i].ty.id]]]
+Case(step) == [sid |-> sid, shape |-> IF n = 0 THEN T ELSE <<>>, step |-> n + 1, a |-> step, mem |-> mem',
+               paths |-> IF n > 0 THEN <<>> ELSE
+                         [i \in DOMAIN ps |-> [hops |-> ps[i].hops, lv |-> Lv(ps[i]), k |-> ps[i].ty.k, id |-> ps[i].ty.id,
+                                                sg |-> ps[i].ty.sg, t |-> ps[i].ty.t, vm |-> IF ps[i].ty.k = "agg" THEN VMask(ps[i].ty) ELSE <<>>]],
+               vm |-> IF n = 0 THEN vm ELSE <<>>]
 Out(step) == EmitOut => CSVWrite("%1$s", <<ToJson(Case(step))>>, IOEnv.OUT)
-Step(m2, step) == /\ prev' = mem /\ mem' = m2 /\ last' = step /\ n' = n + 1 /\ UNCHANGED <<T, ps, vm>> /\ Out(step)
+Step(m2, step) == /\ prev' = mem /\ mem' = m2 /\ last' = step /\ n' = n + 1 /\ UNCHANGED <<T, ps, vm, sid>> /\ Out(step)
 
 (* p = v for an integer or bit-field lvalue *)
 StoreV(pi, kind) ==
